@@ -21,6 +21,7 @@ THEOREMS = [
     "c11_every_request_processed", "c11_session_header_latest", "c11_close",
     "c11_post_protocol_headers", "c11_post_session_header", "c11_post_authorization", "c11_params_auth_headers",
     "c11_post_custom_headers", "c11_params_translated", "c11_params_accept_iff", "c11_params_url_normalised",
+    "c11_stream_chunk_independent", "c11_stream_plain_encodings",
 ]
 RULE = (
     "behaviours: every cell of {200,202,204,301,404,500} x {application/json, text/event-stream, text/plain, absent} x "
@@ -485,6 +486,73 @@ class Params(Suite):
         return "params/" + ("accepted" if o["ok"] else "rejected:" + ",".join(o["bad"]))
 
 
+class StreamBranch(Suite):
+    """the streaming branch of _process_sse_response (dead code behind `hasattr(response, "text")`, still
+    with the pre-repair grammar) driven directly with a response stub, against SseStream.parseStream:
+    every chunking of plain and of conformant-but-not-plain bodies.  Supplementary: divergences are notes."""
+    name = "stream-branch"
+
+    def cases(self, ctx, budget):
+        self._ctx = ctx
+        self._info = 0
+        rng = ctx.sub_rng("c11-stream", budget)
+        texts = []
+        k = 0
+        for eol in ("\n", "\r\n"):
+            for nm in (2, 3):
+                k += 1
+                msgs = [G.notif(f"st{k}-{j}", G.EXTRAS[(k + j) % len(G.EXTRAS)]) for j in range(nm - 1)] + [G.result({"i": 7}, f"st{k}")]
+                texts.append("".join(f"event: message{eol}data: {G.dumps(m)}{eol}{eol}" for m in msgs))
+                texts.append("".join(f"event: {['message', 'response', 'ping'][j % 3]}{eol}data: {G.dumps(m)}{eol}{eol}" for j, m in enumerate(msgs)))
+        # conformant encodings the branch does not understand, unterminated tails, comments, blank lines
+        for c in G.sse_encodings(stride=37)[:12]:
+            texts.append(G.sse_text(c["reqs"][0]["b"]["body"]))
+        texts += ["", "\n", "\n\n", "event: message", "event: message\ndata: {}", "data: {}\n\n", ": c\nevent: message\ndata: {}\n\n",
+                  "event: message\r\ndata: {\"jsonrpc\":\"2.0\",\r\ndata: \"id\":7,\"result\":{}}\r\n\r\n", "event:  message \ndata:  {}\n\n"]
+        out = []
+        for t in texts:
+            out.append({"chunks": [t]})
+            out.append({"chunks": list(t)})                       # one character at a time
+            for _ in range(3 if budget == "quick" else 30):
+                cuts = sorted(rng.randrange(len(t) + 1) for _ in range(rng.randint(1, 6))) if t else []
+                pieces, last = [], 0
+                for c in cuts + [len(t)]:
+                    pieces.append(t[last:c])                      # may be empty: `if not chunk: continue`
+                    last = c
+                out.append({"chunks": pieces})
+        return out
+
+    def impl_batch(self, cases):
+        return [H.run_stream(c["chunks"]) for c in cases]
+
+    def model_line(self, c):
+        return {"m": "http", "op": "stream", "chunks": c["chunks"]}
+
+    def compare(self, c, o, m):
+        if "skipped" in o:
+            if not self._info:
+                self._ctx.notes.append(f"INFO stream-branch cases skipped: {o['skipped']}")
+            self._info += 1
+            return None
+        want = []
+        for x in m.get("outs", []):
+            p_ = x["pass"]
+            want.append({"kind": p_["kind"], "id": p_["id"], "payload": p_["payload"]})
+        got = [x for x in o["transcript"]]
+        if canon(H._norm(got)) != canon(H._norm(want)):
+            self._info += 1
+            if self._info <= 3:
+                self._ctx.notes.append(f"INFO (supplementary) streaming branch differs from SseStream.parseStream: chunks {canon(c)[:200]}")
+            if self._info == 1:
+                print(f"INFO property=C11 supplementary=stream-branch differs from the model: chunks {canon(c)[:200]}")
+        return None
+
+    def kind(self, c, o):
+        if "skipped" in o:
+            return "stream/skipped"
+        return f"stream/chunks{min(len(c['chunks']), 9)}/delivered{min(len(o['transcript']), 3)}"
+
+
 class Render(Suite):
     """the Python renderer used by the harness against the Lean `renderText`; `parseText` on it
     against the generator's own event list (model-only: no implementation run)"""
@@ -550,4 +618,4 @@ class RealSocket(_Base):
 
 
 def suites():
-    return [Singles(), SseEncodings(), Sequences(), Seeded(), Hardening(), Headers(), Params(), Render(), RealSocket()]
+    return [Singles(), SseEncodings(), Sequences(), Seeded(), Hardening(), Headers(), Params(), StreamBranch(), Render(), RealSocket()]
